@@ -126,6 +126,22 @@ theorem sqDistance_not_metric :
    The check replays the search on every dumped tree and compares the returned items with brute force (exact, on
    squared distances); the old failing witness is kept below. -/
 
+/-- **the two pruning rules of `search` are sound for every metric** (the step the full theorem rests on): an item `x`
+    of the right subtree (`threshold ≤ d(vp,x)`) that is skipped because `d(vp,q) + τ < threshold`, and an item of the
+    left subtree (`d(vp,x) ≤ threshold`) that is skipped because `threshold < d(vp,q) − τ`, are farther from the query
+    than `τ`, the largest distance in the (full) result heap — so skipping them loses no neighbour. -/
+theorem prune_sound {α K : Type} [Field K] [LinearOrder K] [IsStrictOrderedRing K] (d : α → α → K)
+    (tri : ∀ a b c, d a c ≤ d a b + d b c) (symm : ∀ a b, d a b = d b a) (vp q x : α) (thr τ : K) :
+    (thr ≤ d vp x → d vp q + τ < thr → τ < d x q) ∧ (d vp x ≤ thr → thr < d vp q - τ → τ < d x q) := by
+  constructor
+  · intro h1 h2
+    have := tri vp q x
+    rw [symm q x] at this
+    linarith
+  · intro h1 h2
+    have := tri vp x q
+    linarith
+
 /-- the witness tree: items 0, 2, 3, 4 on a line, vantage point = first item of each range (`uniform_random() = 0`) -/
 def witnessItems : List (Nat × List Rat) := [(0, [0]), (1, [2]), (2, [3]), (3, [4])]
 
